@@ -285,7 +285,9 @@ class Lexer:
         indentation_str = ' ' * _indent_level_to_spaces_count(self.cur_indent)
         lines_without_indentation = [
             line.replace(indentation_str, '', 1)
-            for line in new_str.splitlines()]
+            # (not splitlines(): that drops a final line break and also
+            # splits at \r, \x0b, \x0c, \x1c-\x1e, \x85, U+2028 and U+2029)
+            for line in new_str.split('\n')]
         t.value = '\n'.join(lines_without_indentation)
         return t
 
